@@ -298,4 +298,25 @@ example : ∃ s',
   obtain ⟨s', hr, hs', _⟩ := compound_ok l hw _ [] hs 400 (by decide)
   exact ⟨s', hr, _, hs'⟩
 
+open PycModel.StmtSkel PycModel.View PycModel.FullExpr PycModel.TransUnit in
+/-- non-vacuity, `#pragma` lines between block items, checked by the kernel: in
+`{ #pragma omp parallel` / `a ;` / `#pragma` / `b ; }` each directive is an item of its own, at its
+place; its coordinate is that of its text (or of the directive when it has none) -/
+example : ∃ s',
+    run 400 .compoundStatement
+      (initState ([("LBRACE", "{"), ("PPPRAGMA", "pragma"), ("PPPRAGMASTR", "omp parallel"), ("ID", "a"), ("SEMI", ";"),
+                   ("PPPRAGMA", "pragma"), ("ID", "b"), ("SEMI", ";"), ("RBRACE", "}")].map (fun t => SEv.tok t.1 t.2) ++ [.eof])) =
+      .ok (mk .Compound (tc 0) [.list [
+            mk .Pragma (tc 2) [.str "omp parallel"],
+            ParenExpr.idNode 3 "a",
+            mk .Pragma (tc 5) [.str ""],
+            ParenExpr.idNode 6 "b"]]) s' ∧
+        (∃ env, SeesT env s' []) := by
+  let l : SL := .consP (some "omp parallel") (.cons (.expr (.id "a")) (.consP none (.cons (.expr (.id "b")) .nil)))
+  have hw : WFSL (fun _ => false) l :=
+    .consP _ _ (.cons _ _ (.expr _ (.id _ _)) (.consP _ _ (.cons _ _ (.expr _ (.id _ _)) .nil)))
+  have hs := ParenExpr.seesT_init (bodyFlat l ++ [])
+  obtain ⟨s', hr, hs', _⟩ := compound_ok l hw _ [] hs 400 (by decide)
+  exact ⟨s', hr, _, hs'⟩
+
 end PycModel.C05
